@@ -5,6 +5,9 @@ CHECKS = {
  "C01": dict(technique="model-based property testing (proptest): reference model of pytest lookup vs find_fixture_definition at every column",
              text="Generated-input search: proptest workspaces judged by an independent reference model of the shadowing order at every column of every usage token; deviations are shrunk to a replay file. Exploration only: no absence claim.",
              note="trusted: the reference model (engine/src/model.rs), the renderer's token table, in-memory path semantics of the index", ref="DESIGN.md 4 C01", engine="vengine"),
+ "C06": dict(technique="metamorphic property testing over generated edit histories (proptest): history index == fresh index of latest valid contents at every prefix",
+             text="Generated-input search over edit histories; oracle is the metamorphic relation between the index reached through a history and a freshly built index (no model). Exploration only.",
+             note="trusted: the implementation itself as its own reference on a fresh database; invalid texts are invalid by construction", ref="DESIGN.md 4 C06", engine="vengine"),
 }
 PENDING = {
 }
